@@ -26,6 +26,7 @@
 #include <vector>
 
 #include <iora/core/logger.hpp>
+#include <iora/core/verif_hooks.hpp>
 #include <iora/common/i_lifecycle_managed.hpp>
 
 namespace iora
@@ -697,6 +698,7 @@ private:
         ++_pendingSpawns;
       }
     } // Release mutex here
+    IORA_VERIF_YIELD(shouldSpawn ? "tp.enqueue.unlocked.spawn" : "tp.enqueue.unlocked");
 
     // Spawn outside of the lock to avoid deadlock
     if (shouldSpawn)
@@ -739,6 +741,7 @@ private:
         ++_pendingSpawns;
       }
     } // Release mutex here
+    IORA_VERIF_YIELD(shouldSpawn ? "tp.enqueue.unlocked.spawn" : "tp.enqueue.unlocked");
 
     // Spawn outside of the lock to avoid deadlock
     if (shouldSpawn)
